@@ -1,2 +1,107 @@
-From Sup Require Import Node Cluster ClusterSpec.
-Theorem placeholder08 : True. Proof. exact I. Qed.
+(* C08 (and the cluster-level core of C01): property-level theorems only. Proofs in proofs/ClusterProofs.v. *)
+From Sup Require Import Node Cluster ClusterSpec ClusterProofs.
+
+(* C01 — agreement at quiescence. A non-empty set of instances such that every member holds the exact current
+   state-and-modes of every member (its own entry included), sees exactly the members RUNNING, passed
+   _check_consistence at its last evaluation (check_master = true) and satisfies SM-local (a non-empty Master is
+   seen RUNNING locally): all members report the same, non-empty Master M, M is a member, every member sees M
+   RUNNING, and the member M regards itself as the Master.
+   No NoDup / key well-formedness hypothesis is needed. *)
+Theorem C01_quiescent_agreement : forall (nodes : list node),
+  nodes <> [] ->
+  (forall ni nj, In ni nodes -> In nj nodes -> view_exact ni nj) ->
+  (forall n, In n nodes -> sees_exactly n (map n_me nodes)) ->
+  (forall n, In n nodes -> master_consistent n) ->
+  (forall n, In n nodes -> sm_local n) ->
+  exists M, In M (map n_me nodes) /\ M <> 0 /\
+    (forall n, In n nodes -> master n = M /\ sees_running n M = true) /\
+    (exists nM, In nM nodes /\ n_me nM = M /\ master nM = M /\ is_master nM = true).
+Proof. exact quiescent_agreement. Qed.
+
+(* C08 — every decision one evaluation of the state machine can return belongs to `decisions (current state)` ... *)
+Theorem C08_decisions_sound : forall n orc now n' o d,
+  fsm_next n orc now = Ok (n', o, Some d) -> In d (decisions (fsm_state n)).
+Proof. exact fsm_next_decisions. Qed.
+
+(* ... more precisely it is a local decision, or the copy of the Master's state by a non-Master instance *)
+Theorem C08_decisions_split : forall n orc now n' o d,
+  fsm_next n orc now = Ok (n', o, Some d) ->
+  In d (decisions_local (fsm_state n))
+  \/ (follows_master (fsm_state n) = true /\ is_master n' = false /\ master_state n' = Some d).
+Proof. exact fsm_next_decisions_split. Qed.
+
+(* C08 — the catalogue: the decisions that the transition table of /repo refuses (each one is a parking spot) *)
+Theorem C08_decisions_catalogue :
+  refused_pairs =
+    [ (DISTRIBUTION, SYNCHRONIZATION); (DISTRIBUTION, CONCILIATION); (DISTRIBUTION, FINAL);
+      (OPERATION, DISTRIBUTION); (OPERATION, FINAL);
+      (CONCILIATION, DISTRIBUTION); (CONCILIATION, FINAL) ].
+Proof. exact refused_pairs_exact. Qed.
+
+(* among them the only one an instance decides by itself (not by copying its Master): RESYNC in DISTRIBUTION *)
+Theorem C08_decisions_catalogue_local : refused_pairs_local = [ (DISTRIBUTION, SYNCHRONIZATION) ].
+Proof. exact refused_pairs_local_exact. Qed.
+
+Theorem C08_catalogue_meaning : forall s d,
+  In (s, d) refused_pairs <-> (In d (decisions s) /\ refused s d = true).
+Proof. exact refused_pairs_spec. Qed.
+
+(* every pair of the catalogue is produced by a concrete node, and the real loop then keeps the state *)
+Theorem C08_catalogue_realised : forall s d, In (s, d) refused_pairs ->
+  exists n n' o, fsm_state n = s /\ fsm_next n rw_orc 100 = Ok (n', o, Some d)
+                 /\ fsm_run n [rw_orc] 100 = Ok (n', o) /\ fsm_state n' = s.
+Proof. exact refused_pairs_realised. Qed.
+
+Theorem C08_refused_keeps_state : forall fuel n d orcs now acc,
+  refused (fsm_state n) d = true -> set_state fuel n (Some d) orcs now acc = Ok (n, acc).
+Proof. exact refused_keeps_state. Qed.
+
+(* C08 regression 1 — the Master is lost (or several are declared) while in CONCILIATION: the evaluation decides
+   ELECTION, the table accepts it, and FiniteStateMachine.next ends in ELECTION. *)
+Theorem C08_conciliation_master_lost_not_parked : forall n orcs now,
+  own_wf n -> fsm_state n = CONCILIATION -> local_running n = true -> quiet n ->
+  no_strategy (n_opts n) = true -> check_master n = Ok false ->
+  (exists n1 o1, fsm_next n (fst (next_orcs orcs)) now = Ok (n1, o1, Some ELECTION) /\ presf n n1)
+  /\ refused CONCILIATION ELECTION = false
+  /\ (forall n' outs, fsm_run n orcs now = Ok (n', outs) -> fsm_state n' = ELECTION).
+Proof. exact conciliation_master_lost_not_parked. Qed.
+
+(* C08 regression 2 — a non-Master instance in ELECTION whose context is stable and consistent leaves ELECTION
+   when its Master is viewed in DISTRIBUTION, OPERATION or CONCILIATION. *)
+Theorem C08_election_slave_not_parked : forall n orcs now,
+  own_wf n -> fsm_state n = ELECTION -> local_running n = true -> quiet n -> no_strategy (n_opts n) = true ->
+  stable_after n = true -> check_master n = Ok true -> is_master n = false -> master_beyond n = true ->
+  (exists n1 o1, fsm_next n (fst (next_orcs orcs)) now = Ok (n1, o1, Some DISTRIBUTION) /\ presf n n1)
+  /\ refused ELECTION DISTRIBUTION = false
+  /\ (forall n' outs, fsm_run n orcs now = Ok (n', outs) ->
+        In (fsm_state n') [DISTRIBUTION; OPERATION; CONCILIATION]).
+Proof. exact election_slave_not_parked. Qed.
+
+Theorem C08_off_progress : forall n orc now,
+  fsm_state n = OFF -> local_running n = true -> quiet n -> views_keyed n ->
+  exists n' o, fsm_next n orc now = Ok (n', o, Some SYNCHRONIZATION).
+Proof. exact off_progress. Qed.
+
+Theorem C08_sync_progress_timeout : forall n orc now,
+  fsm_state n = SYNCHRONIZATION -> local_running n = true -> quiet n -> views_keyed n ->
+  o_timeout (n_opts n) = true -> now - n_start_date n >= o_synchro_timeout (n_opts n) ->
+  exists n' o, fsm_next n orc now = Ok (n', o, Some ELECTION).
+Proof. exact sync_progress_timeout. Qed.
+
+Theorem C08_election_progress_master : forall n orc now,
+  own_wf n -> fsm_state n = ELECTION -> local_running n = true -> quiet n -> no_strategy (n_opts n) = true ->
+  stable_after n = true -> check_master n = Ok true -> is_master n = true ->
+  exists n' o, fsm_next n orc now = Ok (n', o, Some DISTRIBUTION) /\ presf n n'.
+Proof. exact election_progress_master. Qed.
+
+Theorem C08_distribution_progress_master : forall n orc now,
+  own_wf n -> fsm_state n = DISTRIBUTION -> local_running n = true -> quiet n ->
+  no_strategy (n_opts n) = true -> check_master n = Ok true -> is_master n = true -> or_starting orc = false ->
+  exists n' o, fsm_next n orc now = Ok (n', o, Some OPERATION) /\ presf n n'.
+Proof. exact distribution_progress_master. Qed.
+
+Theorem C08_slave_follows_master_state : forall n orc now,
+  own_wf n -> follows_master (fsm_state n) = true -> local_running n = true -> quiet n ->
+  no_strategy (n_opts n) = true -> check_master n = Ok true -> is_master n = false ->
+  exists n' o, fsm_next n orc now = Ok (n', o, master_state n) /\ presf n n'.
+Proof. exact slave_follows_master_state. Qed.
